@@ -202,27 +202,38 @@ Definition c12_ok (c : c12case) : bool :=
 Definition c12_mismatches (cs : list c12case) : list N := bad_indexes c12_ok cs.
 
 (** ---- order of the file-system call sites in the source, as the translator lists them
-    (translator/finishops -> Generated/FinishOps.v).  Each entry: function, call, context (enclosing
+    (translator/finishops -> Generated/FinishSites.v).  Each entry: function, call, context (enclosing
     range loops / if / error-guard, innermost last). *)
 Require Import Coq.Strings.String.
 Open Scope string_scope.
 Definition expected_sites : list (string * string * string) := [
+  (* Finish: an error of phase W removes the temps and returns *)
   ("Finish", "os.Remove", "iferr/range:finishedShards");
+  (* delta: one sidecar temp per old shard *)
   ("Finish", "JsonMarshalRepoMetaTemp", "if/range:oldShards");
+  (* non-delta: IndexFilePaths error (not modelled: Stat never fails) *)
+  ("Finish", "buildError=", "if/range:oldShards/iferr");
+  (* phase R, then phase D — this order is what [finish_ops] = rename_ops ++ delete_ops encodes *)
   ("Finish", "os.Rename", "range:artifactPaths");
   ("Finish", "buildError=", "range:artifactPaths/iferr");
   ("Finish", "SetTombstone", "range:toDelete/if");
-  ("Finish", "buildError=", "range:toDelete/if/iferr");
+  ("Finish", "buildError=", "range:toDelete/if/iferr");     (* guarded: [delete_err_fold false] *)
   ("Finish", "os.Remove", "range:toDelete");
   ("Finish", "buildError=", "range:toDelete/iferr");
+  (* writeShard: everything happens on the CreateTemp handle ([write_shard]) *)
   ("writeShard", "os.MkdirAll", "");
   ("writeShard", "os.CreateTemp", "");
   ("writeShard", "f.Chmod", "if");
+  ("writeShard", "f.Close", "defer");
   ("writeShard", "ib.Write", "");
   ("writeShard", "f.Close", "");
+  (* JsonMarshalRepoMetaTemp ([write_meta]; the temp is removed on error) *)
   ("JsonMarshalRepoMetaTemp", "os.CreateTemp", "");
+  ("JsonMarshalRepoMetaTemp", "f.Close", "defer/func");
+  ("JsonMarshalRepoMetaTemp", "os.Remove", "defer/func/iferr");
   ("JsonMarshalRepoMetaTemp", "f.Chmod", "");
   ("JsonMarshalRepoMetaTemp", "f.Write", "");
+  (* setTombstone ([tomb_ops]) *)
   ("setTombstone", "JsonMarshalRepoMetaTemp", "");
   ("setTombstone", "os.Rename", "");
   ("setTombstone", "os.Remove", "iferr")
